@@ -984,7 +984,12 @@ class URL:
                 return from_parts(self._scheme, self._netloc, path, "", "")
             return self
         parts = path.split("/")
-        return from_parts(self._scheme, self._netloc, "/".join(parts[:-1]), "", "")
+        parent_path = "/".join(parts[:-1])
+        if not parent_path and path[0] == "/" and not self._netloc:
+            # "/name" -> "/": without an authority an empty path would turn
+            # the absolute path into a relative one.
+            parent_path = "/"
+        return from_parts(self._scheme, self._netloc, parent_path, "", "")
 
     @cached_property
     def raw_name(self) -> str:
